@@ -1,0 +1,11 @@
+//go:build !verif
+
+package rosmar
+
+import "sync"
+
+// No-op counterparts of the simulation seams in verif_on.go.
+
+func verifLock(*sync.Mutex, string)    {}
+func verifPoint(string, string)        {}
+func verifNote(string, string, uint64) {}
